@@ -279,6 +279,9 @@ def _generate(rng, tier):
             ops.append(f'collect {r}')
         ops.append('collect 0')
         out.append(Case(line(readers, [], ops), H, ('history', 'lagging-reader', f'collections-{n_col}')))
+    # a reader attached to a provider that is already in use (oracle only)
+    for _ in range(60 if big else 12):
+        out.append(Case(f'late {rng.choice("DC")} {rng.randrange(0, 41)} {rng.randrange(1, 41)}', H, ('late-reader',)))
     # malformed stream
     for i in range(40):
         l = gen_history(rng, 12, 'mixed')
@@ -325,6 +328,24 @@ def effective(kind, v):
 
 
 def oracle(case, out):
+    if case.line.startswith('late '):
+        if out.startswith('CRASH'):
+            return ('no-crash', out)
+        t = case.line.split()
+        ok = len(t) == 4 and t[1] in 'DC' and t[2].isdigit() and t[3].isdigit() and int(t[2]) <= 40 and 1 <= int(t[3]) <= 40
+        if out == 'bad-op':
+            return ('wellformed-case-accepted', out) if ok else None
+        m = re.fullmatch(r'late first=(-?\d+) second=(-?\d+) r0=(-?\d+) before=(\d+) after=(\d+)', out)
+        if not m:
+            return ('summary', out[-100:])
+        first, second, r0, before, after = map(int, m.groups())
+        if r0 != before + after + 5:
+            return ('one-readers-collection-never-takes-measurements-away-from-another', f'reader 0 received {r0} of {before + after + 5}')
+        want2 = 5 if t[1] == 'D' else after + 5
+        if first != after or second != want2:
+            return ('a-reader-attached-later-receives-everything-recorded-after-it-was-attached',
+                    f'late {t[1]} reader: first collection {first} (recorded since it was attached: {after}), second {second} (want {want2})')
+        return None
     if case.line.startswith('mrg '):
         if out.startswith('CRASH'):
             return ('handles-obtained-concurrently/no-crash', out)
@@ -606,6 +627,8 @@ def model_line(case, out):
 
 
 def agree(case, out, mout):
+    if case.line.startswith('late '):
+        return True      # oracle only: the protocol model has a fixed set of readers (DESIGN 9.7b)
     if case.line.startswith(('syn ', 'mrg ')):
         return out.split(' ; ')[-1] == mout      # only the schedule-independent summary is predicted
     return out == mout
